@@ -12,7 +12,14 @@ import (
 func VerifH_C08_safeio_gate() {
 	r := rt.New(nil)
 	flags := rt.ComplianceFlags(nondetUint16("flags") & 0xf)
-	r.PushContext(rt.RuntimeContextDef{RequiredFlags: flags})
+	// the context may also carry (symbolic) resource limits
+	def := rt.RuntimeContextDef{RequiredFlags: flags}
+	def.HardLimits.Memory = nondetUint64("mem")
+	def.HardLimits.Cpu = nondetUint64("cpu")
+	verifAssume(def.HardLimits.Memory < (1<<62) && def.HardLimits.Cpu < (1<<62))
+	verifAssume(def.HardLimits.Memory == 0 || def.HardLimits.Memory > 100000)
+	verifAssume(def.HardLimits.Cpu == 0 || def.HardLimits.Cpu > 100000)
+	r.PushContext(def)
 	which := verifChoose("which", 4)
 	var err error
 	switch which {
